@@ -1001,7 +1001,7 @@ Lemma rebalance_spec : forall s place,
   res3_spec (bal_P (s_ans s)) s (rebalance s place).
 Proof.
   intros s place Hi. unfold rebalance. cbv zeta.
-  assert (Hnil : res3_spec (bal_P (s_ans s)) s (s, BRet false false, @nil attempt))
+  assert (Hnil : res3_spec (bal_P (s_ans s)) s (s, BRet false false false, @nil attempt))
     by (simpl; split; [reflexivity|apply sspec_nil; exact Hi]).
   assert (Hnil' : forall b : bres, res3_spec (bal_P (s_ans s)) s (s, b, @nil attempt))
     by (intros b; simpl; split; [reflexivity|apply sspec_nil; exact Hi]).
@@ -1353,12 +1353,13 @@ Definition step_res (P : attempt -> Prop) (s : st) {B} (res : st * B * list atte
 Lemma res3_step_res : forall P s B (res : st * B * list attempt), res3_spec P s res -> step_res P s res.
 Proof. intros P s B [[s' b] w] [H1 H2]. split; [exact H2|left; exact H1]. Qed.
 
-Lemma step_spec : forall s e,
+(* every event except ChangeNamespaceMetaParam keeps the replication factor *)
+Lemma step_spec3 : forall s e,
+  (match e with EReplica _ => False | _ => True end) ->
   Inv (s_replica s) (r_info (s_reg s)) ->
-  step_res (step_P s e) s (step s e).
+  res3_spec (step_P s e) s (step s e).
 Proof.
-  intros s e Hi. destruct e; simpl step;
-    match goal with |- step_res _ _ (if _ then _ else _) => idtac | _ => apply res3_step_res end.
+  intros s e Hne Hi. destruct e; simpl step.
   - (* ENodes *) unfold nodes_event. simpl. split; [reflexivity|apply sspec_nil; exact Hi].
   - simpl. split; [reflexivity|apply sspec_nil; exact Hi].
   - simpl. split; [reflexivity|apply sspec_nil; exact Hi].
@@ -1398,7 +1399,7 @@ Proof.
     assert (H := learner_check_spec s Hi). destruct (learner_check s) as [r w]. simpl. split; [reflexivity|].
     eapply sspec_weaken; [|exact H]. intros ? _. exact I.
   - (* ELStart *)
-    destruct (0 <? r_mode (s_reg s)); (split; [apply sspec_nil; exact Hi|left; reflexivity]).
+    destruct (0 <? r_mode (s_reg s)); simpl; (split; [reflexivity|apply sspec_nil; exact Hi]).
   - (* ELAdd *)
     assert (H := learner_add_spec (s_replica s) (s_reg s) n Hi).
     destruct (learner_add (s_reg s) (r_info (s_reg s)) n) as [[[c r] i] w].
@@ -1408,7 +1409,7 @@ Proof.
     destruct (learner_leader (s_reg s) (r_info (s_reg s)) n) as [[[c r] i] w].
     apply pspec_sspec in H. destruct H as [H _]. simpl. split; [reflexivity|]. eapply sspec_weaken; [|exact H]. intros ? _. exact I.
   - (* ELRemove *)
-    destruct (1 <? r_mode (s_reg s)); [split; [apply sspec_nil; exact Hi|left; reflexivity]|]. apply res3_step_res.
+    destruct (1 <? r_mode (s_reg s)); [simpl; split; [reflexivity|apply sspec_nil; exact Hi]|].
     assert (H := learner_remove_spec (s_replica s) (s_lnodes s) (s_reg s) n check Hi).
     destruct (learner_remove (s_lnodes s) (s_reg s) (r_info (s_reg s)) n check) as [[[c r] i] w].
     apply pspec_sspec in H. destruct H as [H _]. simpl. split; [reflexivity|]. eapply sspec_weaken; [|exact H]. intros ? _. exact I.
@@ -1416,15 +1417,25 @@ Proof.
     assert (H := learner_remove_all_spec (s_replica s) (s_reg s) Hi).
     destruct (learner_remove_all (s_reg s) (r_info (s_reg s))) as [[[c r] i] w].
     apply pspec_sspec in H. destruct H as [H _]. simpl. split; [reflexivity|]. eapply sspec_weaken; [|exact H]. intros ? _. exact I.
-  - (* EReplica *)
+  - (* EReplica *) contradiction.
+  - (* EUpgrade *) simpl. split; [reflexivity|apply sspec_nil; exact Hi].
+  - (* ERegMode *) simpl. split; [reflexivity|apply sspec_same_info; [reflexivity|exact Hi]].
+Qed.
+
+Lemma step_spec : forall s e,
+  Inv (s_replica s) (r_info (s_reg s)) ->
+  step_res (step_P s e) s (step s e).
+Proof.
+  intros s e Hi.
+  assert (H3 := step_spec3 s e).
+  destruct e; try (apply res3_step_res; apply H3; [exact I|exact Hi]).
+  clear H3. simpl step.
     destruct (5 <? r); [split; [apply sspec_nil; exact Hi|left; reflexivity]|].
     destruct (1 <? r_mode (s_reg s)); [split; [apply sspec_nil; exact Hi|left; reflexivity]|].
     destruct (len (avail_nodes s) <? (if 0 <? r then r else s_replica s));
       [split; [apply sspec_nil; exact Hi|left; reflexivity]|].
     destruct (0 <? r_mode (s_reg s)); [split; [apply sspec_nil; exact Hi|left; reflexivity]|].
     split; [apply sspec_same_info; [reflexivity|exact Hi]|right; split; reflexivity].
-  - (* EUpgrade *) simpl. split; [reflexivity|apply sspec_nil; exact Hi].
-  - (* ERegMode *) simpl. split; [reflexivity|apply sspec_same_info; [reflexivity|exact Hi]].
 Qed.
 
 (* the replication factor is never raised along the run (only needed for q = true) *)
